@@ -25,6 +25,8 @@ from __future__ import annotations
 
 import asyncio
 import copy
+import functools
+import threading
 from typing import Any, Callable
 
 from kv.driver import op_var
@@ -45,9 +47,19 @@ def jsonable(x: Any, depth: int = 0) -> Any:
     return {str(k): jsonable(v, depth + 1) for k, v in items}
 
 
+def _locked(fn: Callable[..., Any]) -> Callable[..., Any]:
+    """The recorder is shared by the loop thread and the handler threads of synchronous handlers: its counters and lists are updated under one lock."""
+    @functools.wraps(fn)
+    def wrapper(self: Any, *a: Any, **kw: Any) -> Any:
+        with self._lock:
+            return fn(self, *a, **kw)
+    return wrapper
+
+
 class Recorder:
     def __init__(self, sim: Any) -> None:
         self.sim = sim
+        self._lock = threading.RLock()
         self.events: list[dict[str, Any]] = []          # call/ret/op records in global order
         self.script_pos: dict[tuple[str, str | None], int] = {}
         self.scripts: dict[str, list[Any]] = {}
@@ -61,13 +73,16 @@ class Recorder:
     def now(self) -> float:
         return self.sim.loop.time()
 
+    @_locked
     def op_event(self, inc: str, what: str, **kw: Any) -> None:
         self.events.append({'k': 'op', 'g': next(GSEQ), 't': self.now(), 'inc': inc, 'what': what, **kw})
 
+    @_locked
     def note(self, what: str, **kw: Any) -> None:
         self.events.append({'k': 'note', 'g': next(GSEQ), 't': self.now(), 'what': what, **kw})
 
     # ---- scripts --------------------------------------------------------------------
+    @_locked
     def next_atom(self, hid: str, uid: str | None) -> Any:
         script = self.scripts.get(hid) or []
         pos = self.script_pos.get((hid, uid), 0)
@@ -78,6 +93,7 @@ class Recorder:
         return True
 
     # ---- records --------------------------------------------------------------------
+    @_locked
     def call(self, hid: str, kind: str, kw: dict[str, Any]) -> dict[str, Any]:
         self.call_seq += 1
         if self.call_seq == getattr(self.sim, 'max_calls', 1 << 60):
@@ -137,6 +153,7 @@ class Recorder:
         self.events.append(rec)
         return rec
 
+    @_locked
     def ret(self, call: dict[str, Any], outcome: str, **kw: Any) -> None:
         inc = call['inc']
         client = self.sim.kube.clients.get(inc) if inc else None
